@@ -327,7 +327,8 @@ def srcSlot (w : World S V) : Src → Option (Slot × List (Gen S V))
     -- numbergen TimeAware._check_time_fn asserts that Dynamic.time_dependent is on
     if w.dynTD then some (.gen w.gens.length, w.gens ++ [Gen.fresh (.td n s) f tf]) else none
   | .fresh (.sampled n s p o) f tf =>
-    if w.dynTD then some (.gen w.gens.length, w.gens ++ [Gen.fresh (.sampled n s p o) f tf]) else none
+    -- TimeSampledFn: period > 0 (Number bounds), offset >= 0, and `offset >= period` raises
+    if w.dynTD && decide (0 < p) && decide (0 ≤ o) && decide (o < p) then some (.gen w.gens.length, w.gens ++ [Gen.fresh (.sampled n s p o) f tf]) else none
   | .fresh (.stream sid) f tf => some (.gen w.gens.length, w.gens ++ [Gen.fresh (.stream sid) f tf])
   | .existing g =>
     match w.gens[g]? with
@@ -444,7 +445,7 @@ def Op.tag : Op → String
   | .read tg p => s!"read:{tg.tag}:{p}" | .inspect tg p => s!"inspect:{tg.tag}:{p}"
   | .force tg p => s!"force:{tg.tag}:{p}"
   | .push i => s!"push:{i}" | .pop i => s!"pop:{i}"
-  | .assign _ _ _ => "assign" | .newInst => "newInst" | .ctx _ => "ctx" | .raise _ => "raise"
+  | .assign tg p _ => s!"assign:{tg.tag}:{p}" | .newInst => "newInst" | .ctx _ => "ctx" | .raise _ => "raise"
 
 structure Ev (V : Type) where
   kind : EvKind
